@@ -226,6 +226,12 @@ def norm_rules(run, db):
         got['data'] = key(o.attrs.get('data'))
         okr = got == {'x': 'UX', 'y': 'UY', 'data': 'PSD'}
         detail = str(got)
+        if not okr:
+            # coordinates that are descriptors built by a factory (x = _lazy(...)) are assigned through code the interpreter does not
+            # follow: then "not stored" cannot be told from "stored where we do not look"
+            rich = db.cls('prysm._richdata.RichData')
+            if any(db.method(rich, a_) is None or 'property' not in db.method(rich, a_).decorators for a_ in ('x', 'y')):
+                raise AnalysisError('Interferogram.psd: the x / y attributes of the returned object are not plain properties; where the frequency axes are stored is not followed')
     run.check(okc and okr, 'C13.axis', fi.qual, 'wiring', 'Interferogram.psd passes (data, dx) and stores (ux, uy) as (x, y) of the returned spectrum',
               'Interferogram.psd wiring changed: psd() receives %s; the returned object holds %s' % ([{k: key(v) for k, v in c[1].items()} for c in calls2], detail), fi.loc())
     from ..core.pattern import match_all
